@@ -353,7 +353,7 @@ type Group struct {
 	Options      []Opt   `json:"options,omitempty"`
 	Plain        []Plain `json:"plain,omitempty"`
 	Groups       []Group `json:"groups,omitempty"`
-	RawTag       *string `json:"rawtag,omitempty"` // tag of the group's struct field, verbatim (nested groups only)
+	RawTag       *string `json:"rawtag,omitempty"`   // tag of the group's struct field, verbatim (nested groups only)
 	OptsLast     bool    `json:"optslast,omitempty"` // the option fields are declared after the nested group fields
 	Ptr          string  `json:"ptr,omitempty"`      // nested groups: the field is a pointer to the struct: "nil" at setup, or "set"
 }
